@@ -38,6 +38,7 @@ struct Fiber
     int join_target = -1;
     bool timed = false;     // timed wait in progress
     bool timed_out = false; // ... and it expired
+    int clock_reads = 0;    // since the last scheduling point
 };
 
 static Fiber* g_f[MAXF];
@@ -303,6 +304,7 @@ sched_point(Op op, const void* obj)
     F.info.obj = obj;
     F.info.st = RUNNABLE;
     F.info.points++;
+    F.clock_reads = 0;
     g_points++;
     yield_to_main();
 }
@@ -559,6 +561,10 @@ extern "C"
 
     int vp_clock_gettime(clockid_t, struct timespec* ts)
     {
+        // A loop that only reads the clock (polling) must not starve the other fibers: every 4th
+        // reading without any other scheduling point in between is one.
+        if (g_cur >= 0 && ++g_f[g_cur]->clock_reads >= 4)
+            sched_point(OP_CLOCK, nullptr);
         g_now += 1000; // clocks strictly increase: +1 us per reading
         ts->tv_sec = (time_t)(g_now / 1000000000ull);
         ts->tv_nsec = (long)(g_now % 1000000000ull);
